@@ -6,5 +6,4 @@ CONSTANTS NMax = 3
 INVARIANT Total
 INVARIANT Independent
 INVARIANT PrimitiveWhenAvailable
-INVARIANT OrderIndependent
 CHECK_DEADLOCK FALSE
